@@ -1,5 +1,6 @@
 import Haiway.Proofs.Logs
 import Haiway.Proofs.ScopeRun
+import Haiway.Proofs.ScopeRunInfo
 /-!
 # C19 – context log lines go to the scope's logger tagged with an inherited trace id
 
@@ -86,6 +87,24 @@ theorem tagged (c : Scope) (lv : Level) (msg : List Char) (args : List Arg) (exc
   intro text h
   have := not_lost c lv msg args exc text h
   simpa [pfx] using this
+
+/-- C19.identifier_unique: in every reachable state of the program-level system – any number of scopes constructed
+by any tasks in any order, scopes long gone included (the record of a scope is never dropped or rewritten) – two
+different scopes carry different identifiers: the identifier of scope number `n` is `n`'s own. -/
+theorem identifier_unique (evs : List ScopeRun.Ev) (n m : Nat) (c d : Scope) :
+    let s := ScopeRun.run ScopeRun.init evs
+    s.info n = some c → s.info m = some d → n ≠ m → c.id ≠ d.id := by
+  intro s hc hd hne heq
+  have inv := ScopeRun.run_info evs ScopeRun.init ScopeRun.infoOwn_init
+  exact hne (by rw [← inv n c hc, ← inv m d hd, heq])
+
+/-- C19.fresh_trace_unique: an outermost scope without a given trace id gets a fresh one – the one generated for
+*that* scope – so two such scopes (at any distance in time) never share a trace id. -/
+theorem fresh_trace_unique (spec spec' : Spec) (id id' : Nat) (h : spec.trace = none) (h' : spec'.trace = none)
+    (hne : id ≠ id') : (mkScope none spec id).trace ≠ (mkScope none spec' id').trace := by
+  simp only [mkScope, h, h']
+  intro heq
+  exact hne (by injection heq)
 
 /-- C19.outside_root: outside any scope the record goes to the root logger, untagged: format, arguments,
 level and exception exactly as passed. -/
